@@ -5,6 +5,7 @@ from props.util import *
 LASTN = ["SMA", "WMA", "SD", "MAD", "MIN", "MAX", "FAST", "BB", "CCI"]
 LASTN1 = ["ROC", "ER", "MFI"]
 EXACT = {"MIN", "MAX", "FAST"}
+aux_big = True   # also run the auxiliary big-period family (periods 2500 / 4100, two ring wraps) through the bit-exact tie
 rule = ("SMA, WMA, SD, MAD, MIN, MAX, FAST, BB, CCI (last n) and ROC, ER, MFI (last n+1), periods 1..6 and sampled to 64: slot 0 is fed a "
         "history = arbitrary prefix (random regimes; in half of the cases containing spikes 10^6 times larger than the suffix level) followed "
         "by a suffix; slot 1 is a fresh instance fed only the suffix; once the suffix is at least n (n+1) long, the outputs are compared at "
